@@ -165,7 +165,8 @@ Lemma forward_target wire o q u :
   exists path rp raw,
     raw = raw_path_of (rq_target q) /\ (exists r, raw = 47 :: r) /\ (exists t, path = 47 :: t)
     /\ unescape raw = Ok path /\ rp = (if beq (escape path) raw then [] else raw)
-    /\ forall x, escaped_path (target_path path (ro_strip o) (ro_prepend o)) rp = 47 :: x ->
+    /\ forall x, escaped_path (target_path path (ro_strip o) (ro_prepend o))
+                              (target_rawpath path rp (ro_strip o) (ro_prepend o)) = 47 :: x ->
                  up_target u = (47 :: x) ++ spec_query o (rq_target q).
 Proof.
   intros F. apply forward_inv in F as (p & P & _ & _ & T & _).
@@ -183,14 +184,49 @@ Proof.
   rewrite Q1, Q2, query_part. reflexivity.
 Qed.
 
+(* ---------- the rewritten RawPath hint ---------- *)
+Lemma target_rawpath_nil path strip prepend : target_rawpath path [] strip prepend = [].
+Proof.
+  unfold target_rawpath, strip_applies. destruct (nonempty strip) eqn:N; cbn [andb].
+  - destruct strip; [discriminate|]. destruct (has_prefix path (n :: strip)); cbn [has_prefix nonempty];
+      destruct (nonempty prepend); reflexivity.
+  - cbn [nonempty]. destruct (nonempty prepend); reflexivity.
+Qed.
+
+Lemma target_rawpath_abs path rp strip prepend :
+  (rp = [] \/ exists r, rp = 47 :: r) ->
+  target_rawpath path rp strip prepend = [] \/ exists r, target_rawpath path rp strip prepend = 47 :: r.
+Proof.
+  intros H. unfold target_rawpath.
+  set (r1 := if strip_applies path strip
+             then (if has_prefix rp strip then slash_fix (skipn (length strip) rp) else []) else rp).
+  assert (R : r1 = [] \/ exists r, r1 = 47 :: r).
+  { unfold r1. destruct (strip_applies path strip); [|exact H].
+    destruct (has_prefix rp strip); [right; apply slash_fix_abs | now left]. }
+  destruct (nonempty prepend); [|exact R].
+  destruct (nonempty r1); [right; apply slash_fix_abs | exact R].
+Qed.
+
+Lemma rp_shape path raw (r : str) :
+  raw = 47 :: r ->
+  (if beq (escape path) raw then [] else raw) = [] \/ exists r', (if beq (escape path) raw then [] else raw) = 47 :: r'.
+Proof. intros ->. destruct (beq _ _); [now left | right; eauto]. Qed.
+
+Lemma valid_no_q s : valid_encoded s = true -> ~ In 63 s.
+Proof.
+  unfold valid_encoded. intros H I. rewrite forallb_forall in H. specialize (H _ I).
+  vm_compute in H. discriminate.
+Qed.
+
 (* ---------- absolute path, query ---------- *)
 Theorem absolute_path_always wire o q u :
   forward wire o q = Ok u -> exists t, up_target u = 47 :: t.
 Proof.
   intros F. destruct (forward_target _ _ _ _ F) as (path & rp & raw & _ & [r Hr] & Hp & _ & RP & K).
-  destruct (escaped_path_abs (target_path path (ro_strip o) (ro_prepend o)) rp) as [x E].
+  destruct (escaped_path_abs (target_path path (ro_strip o) (ro_prepend o))
+                             (target_rawpath path rp (ro_strip o) (ro_prepend o))) as [x E].
   - now apply target_path_abs.
-  - rewrite RP. destruct (beq (escape path) raw); [now left | right; eauto].
+  - apply target_rawpath_abs. rewrite RP. now apply (rp_shape path raw r).
   - rewrite (K x E). cbn [app]. eauto.
 Qed.
 
@@ -199,13 +235,143 @@ Theorem query_merge wire o q u :
   exists rp, ~ In 63 rp /\ up_target u = rp ++ spec_query o (rq_target q).
 Proof.
   intros F. destruct (forward_target _ _ _ _ F) as (path & rp & raw & Hraw & [r Hr] & Hp & _ & RP & K).
-  destruct (escaped_path_abs (target_path path (ro_strip o) (ro_prepend o)) rp) as [x E].
+  destruct (escaped_path_abs (target_path path (ro_strip o) (ro_prepend o))
+                             (target_rawpath path rp (ro_strip o) (ro_prepend o))) as [x E].
   - now apply target_path_abs.
-  - rewrite RP. destruct (beq (escape path) raw); [now left | right; eauto].
+  - apply target_rawpath_abs. rewrite RP. now apply (rp_shape path raw r).
   - exists (47 :: x). split; [|now apply K]. rewrite <- E. unfold escaped_path.
-    destruct (nonempty rp && valid_encoded rp && out_is (unescape rp) _).
-    + rewrite RP. destruct (beq (escape path) raw); [intros []|]. rewrite Hraw. apply cut_q_no_q.
+    set (tr := target_rawpath path rp (ro_strip o) (ro_prepend o)).
+    destruct (nonempty tr && valid_encoded tr && out_is (unescape tr) _) eqn:C.
+    + apply andb_true_iff in C as [C _]. apply andb_true_iff in C as [_ C]. now apply valid_no_q.
     + destruct (beq _ [42]); [intros [H|[]]; discriminate | apply escape_no_q].
+Qed.
+
+(* ---------- plain strings (their own encoding) ---------- *)
+Lemma plain_cons c r : plain (c :: r) = true -> should_escape c = false /\ plain r = true.
+Proof.
+  unfold plain. cbn [forallb]. intros H. apply andb_true_iff in H as [A B].
+  apply negb_true_iff in A. auto.
+Qed.
+
+Lemma plain_unescape_app s r :
+  plain s = true ->
+  unescape (s ++ r) = match unescape r with Ok d => Ok (s ++ d) | e => e end.
+Proof.
+  induction s as [|c s IH]; intros P.
+  - cbn [app]. destruct (unescape r); reflexivity.
+  - apply plain_cons in P as [E P]. cbn [app]. rewrite unescape_lit by (now apply plain_not_pct).
+    rewrite (IH P). destruct (unescape r); reflexivity.
+Qed.
+
+Lemma plain_escape s : plain s = true -> escape s = s.
+Proof.
+  induction s as [|c s IH]; intros P; [reflexivity|].
+  apply plain_cons in P as [E P]. rewrite escape_cons. unfold esc_byte. rewrite E. cbn [app].
+  now rewrite (IH P).
+Qed.
+
+Lemma plain_valid s : plain s = true -> valid_encoded s = true.
+Proof.
+  unfold plain, valid_encoded. intros H. rewrite forallb_forall in *. intros c I.
+  rewrite (H c I). apply orb_true_r.
+Qed.
+
+Lemma plain_raw_drop strip rest : plain strip = true -> raw_drop (strip ++ rest) strip = Some rest.
+Proof.
+  induction strip as [|c s IH]; intros P; [reflexivity|].
+  apply plain_cons in P as [E P]. cbn [app]. rewrite raw_drop_lit by (now apply plain_not_pct).
+  rewrite N.eqb_refl. now apply IH.
+Qed.
+
+Lemma valid_app a b : valid_encoded (a ++ b) = valid_encoded a && valid_encoded b.
+Proof. apply forallb_app. Qed.
+
+Lemma valid_slash_fix s : valid_encoded s = true -> valid_encoded (slash_fix s) = true.
+Proof.
+  intros H. unfold slash_fix. destruct (has_prefix s [47]); [exact H|].
+  unfold valid_encoded in *. cbn [forallb]. now rewrite H.
+Qed.
+
+Lemma has_prefix_split s p : has_prefix s p = true -> s = p ++ skipn (length p) s.
+Proof.
+  intros H. apply has_prefix_spec in H as [r ->]. f_equal.
+  induction p as [|c p IH]; [reflexivity | exact IH].
+Qed.
+
+Lemma skipn_app_len {A} (p r : list A) : skipn (length p) (p ++ r) = r.
+Proof. induction p as [|c p IH]; [reflexivity | exact IH]. Qed.
+
+(* slash_fix on a raw string and on its decoded form *)
+Lemma unescape_slash_fix rest d :
+  unescape rest = Ok d -> Bool.eqb (has_prefix d [47]) (has_prefix rest [47]) = true ->
+  unescape (slash_fix rest) = Ok (slash_fix d).
+Proof.
+  intros U E. apply eqb_prop in E. unfold slash_fix. rewrite E.
+  destruct (has_prefix rest [47]); [exact U|].
+  rewrite unescape_lit by discriminate. now rewrite U.
+Qed.
+
+Lemma slash_fix_nonempty s : nonempty (slash_fix s) = true.
+Proof. destruct (slash_fix_abs s) as [t ->]. reflexivity. Qed.
+
+(* the heart of the repaired behaviour: under the side-condition the rewritten RawPath is a valid
+   encoding of the rewritten Path and is, byte for byte, what the specification asks for *)
+Lemma kept_raw o raw path (r : str) :
+  raw = 47 :: r -> unescape raw = Ok path -> valid_encoded raw = true ->
+  encoding_kept_cond o raw path = true ->
+  let tr := target_rawpath path raw (ro_strip o) (ro_prepend o) in
+  nonempty tr = true /\ valid_encoded tr = true
+  /\ unescape tr = Ok (target_path path (ro_strip o) (ro_prepend o))
+  /\ tr = spec_raw_path raw (ro_strip o) (ro_prepend o).
+Proof.
+  intros Hr U V C. unfold encoding_kept_cond in C. apply andb_true_iff in C as [CS CP].
+  unfold target_rawpath, target_path, spec_raw_path.
+  set (strip := ro_strip o) in *. set (prepend := ro_prepend o) in *.
+  (* step 1: strip *)
+  set (r1 := if strip_applies path strip
+             then (if has_prefix raw strip then slash_fix (skipn (length strip) raw) else []) else raw).
+  set (p1 := if strip_applies path strip then slash_fix (skipn (length strip) path) else path).
+  set (s1 := match (if nonempty strip then raw_drop raw strip else None) with
+             | Some rest => slash_fix rest | None => raw end).
+  assert (S1 : nonempty r1 = true /\ valid_encoded r1 = true /\ unescape r1 = Ok p1 /\ r1 = s1
+               /\ exists x, r1 = 47 :: x).
+  { unfold r1, p1, s1. destruct (strip_applies path strip) eqn:SA.
+    - cbn [negb orb] in CS. apply andb_true_iff in CS as [CS SO]. apply andb_true_iff in CS as [PL HP].
+      rewrite HP. unfold strip_applies in SA. apply andb_true_iff in SA as [NS _]. rewrite NS.
+      pose proof (has_prefix_split _ _ HP) as SPL. set (rest := skipn (length strip) raw) in *.
+      unfold slash_ok in SO. destruct (unescape rest) as [d| |] eqn:UR; try discriminate.
+      assert (PD : path = strip ++ d).
+      { rewrite SPL, (plain_unescape_app _ _ PL), UR in U. now inversion U. }
+      assert (VR : valid_encoded rest = true).
+      { rewrite SPL, valid_app in V. now apply andb_true_iff in V as [_ V]. }
+      repeat split.
+      + apply slash_fix_nonempty.
+      + now apply valid_slash_fix.
+      + rewrite PD, skipn_app_len. now apply unescape_slash_fix.
+      + rewrite SPL. now rewrite (plain_raw_drop _ _ PL).
+      + apply slash_fix_abs.
+    - repeat split; try assumption.
+      + now rewrite Hr.
+      + destruct (nonempty strip) eqn:NS; [|reflexivity].
+        destruct (raw_drop raw strip) as [rest|] eqn:D; [|reflexivity].
+        apply (raw_drop_sound _ _ _ _ U) in D. unfold strip_applies in SA. rewrite NS, D in SA. discriminate.
+      + eauto. }
+  destruct S1 as (N1 & V1 & U1 & E1 & [x X1]).
+  (* step 2: prepend *)
+  destruct (nonempty prepend) eqn:NP.
+  - cbn [negb orb] in CP. rewrite N1.
+    destruct prepend as [|c0 pr]; [discriminate|].
+    assert (SF : forall y, slash_fix ((c0 :: pr) ++ y) = (if c0 =? 47 then [] else [47]) ++ (c0 :: pr) ++ y).
+    { intros y. unfold slash_fix. cbn [app has_prefix]. destruct (c0 =? 47); reflexivity. }
+    rewrite !SF. repeat split.
+    + destruct (c0 =? 47); reflexivity.
+    + rewrite !valid_app, (plain_valid _ CP), V1. destruct (c0 =? 47); reflexivity.
+    + assert (UU : unescape ((c0 :: pr) ++ r1) = Ok ((c0 :: pr) ++ p1)).
+      { rewrite (plain_unescape_app _ _ CP), U1. reflexivity. }
+      destruct (c0 =? 47); cbn [app] in *; [exact UU|].
+      rewrite unescape_lit by discriminate. now rewrite UU.
+    + rewrite (plain_escape _ CP), <- E1, SF. reflexivity.
+  - repeat split; assumption.
 Qed.
 
 (* ---------- the raw path: outside the two regions it is what the property asks for ---------- *)
@@ -223,29 +389,32 @@ Proof.
   assert (Hbp : all_lt_256 path = true).
   { eapply unescape_lt256; [|exact U]. rewrite Hraw. now apply cut_q_lt256. }
   destruct (beq (escape path) raw) eqn:C.
-  - (* canonical: any options *)
-    apply beq_eq in C. subst rp.
+  - (* canonical: any options; the hint stays empty *)
+    apply beq_eq in C. subst rp. rewrite target_rawpath_nil in K.
     assert (A : exists t', target_path path (ro_strip o) (ro_prepend o) = 47 :: t')
       by (apply target_path_abs; eauto).
     pose proof (escaped_path_canon _ A) as E.
     destruct A as [t' A]. pose proof E as E'. rewrite A, escape_head47 in E'. rewrite <- A in E'.
     rewrite (K _ E'). f_equal. rewrite <- C, target_canonical by assumption.
     rewrite A. now rewrite escape_head47.
-  - (* not canonical: no option touches the path and all its bytes are URI path bytes *)
-    cbn [negb andb] in R1, R2. rewrite andb_true_r in R1. rewrite R1 in R2. cbn [negb andb] in R2.
-    apply negb_false_iff in R2. apply orb_false_iff in R1 as [S P].
-    assert (E : escaped_path path rp = raw).
-    { apply escaped_path_keeps_valid_raw.
-      - rewrite Hr. reflexivity.
-      - unfold set_path. rewrite U. cbn [bind]. rewrite C, RP. reflexivity.
-      - now left. }
-    assert (TP : target_path path (ro_strip o) (ro_prepend o) = path).
-    { unfold target_path. now rewrite S, P. }
-    rewrite TP in K. rewrite Hr in E. rewrite (K _ E), <- Hr. f_equal.
-    unfold spec_raw_path. rewrite P.
-    destruct (nonempty (ro_strip o)) eqn:NS; [|reflexivity].
-    destruct (raw_drop raw (ro_strip o)) as [rest|] eqn:D; [|reflexivity].
-    apply (raw_drop_sound _ _ _ _ U) in D. unfold strip_applies in S. rewrite NS, D in S. discriminate.
+  - (* not canonical: all bytes are URI path bytes and the side-condition holds *)
+    assert (V : valid_encoded raw = true).
+    { destruct (valid_encoded raw); [reflexivity|]. cbn [negb andb] in R2. discriminate. }
+    assert (CC : encoding_kept_cond o raw path = true).
+    { destruct (encoding_kept_cond o raw path) eqn:CC; [reflexivity|]. rewrite V in R1.
+      destruct (strip_applies path (ro_strip o)) eqn:S; [cbn [orb negb andb] in R1; discriminate|].
+      destruct (nonempty (ro_prepend o)) eqn:P; [cbn [orb negb andb] in R1; discriminate|].
+      unfold encoding_kept_cond in CC. rewrite S, P in CC. cbn [negb orb andb] in CC. discriminate. }
+    subst rp.
+    destruct (kept_raw o raw path r Hr U V CC) as (N & V2 & UT & SP).
+    set (tr := target_rawpath path raw (ro_strip o) (ro_prepend o)) in *.
+    assert (E : escaped_path (target_path path (ro_strip o) (ro_prepend o)) tr = tr).
+    { unfold escaped_path. rewrite N, V2, UT. cbn [andb out_is]. now rewrite beq_refl. }
+    destruct (target_rawpath_abs path raw (ro_strip o) (ro_prepend o)) as [Z|[x X]]; [right; eauto | |].
+    + fold tr in Z. rewrite Z in N. discriminate.
+    + fold tr in X. assert (E' : escaped_path (target_path path (ro_strip o) (ro_prepend o)) tr = 47 :: x)
+        by (rewrite E; exact X).
+      rewrite (K _ E'), <- X, SP. reflexivity.
 Qed.
 
 (* special case named by the property: nothing configured, path made of URI path bytes *)
@@ -261,8 +430,45 @@ Proof.
   { intros raw. unfold opts_touch_path, strip_applies. rewrite S, P. destruct (unescape raw); reflexivity. }
   rewrite (target_on_domain wire o q u Hb F).
   - unfold spec_target, spec_raw_path. now rewrite S, P.
-  - unfold region_strip_encoding. now rewrite T.
+  - unfold region_strip_encoding. rewrite T. destruct (unescape _); reflexivity.
   - unfold region_invalid_byte. rewrite V. cbn [negb]. now rewrite andb_false_r.
+Qed.
+
+(* the repaired behaviour, spelled out: the strip prefix literally in front of the raw path, cut
+   where a '/' can be put consistently, plain options: the upstream path is the (absolute) prepend
+   followed by the client's raw remainder, byte for byte *)
+Theorem strip_prepend_keep_raw wire o q u rest :
+  all_lt_256 (rq_target q) = true ->
+  forward wire o q = Ok u ->
+  raw_path_of (rq_target q) = ro_strip o ++ rest ->
+  nonempty (ro_strip o) = true -> plain (ro_strip o) = true -> slash_ok rest = true ->
+  valid_encoded (raw_path_of (rq_target q)) = true ->
+  (ro_prepend o = [] \/ plain (ro_prepend o) = true) ->
+  up_target u = (if nonempty (ro_prepend o) then slash_fix (ro_prepend o ++ slash_fix rest) else slash_fix rest)
+                ++ spec_query o (rq_target q).
+Proof.
+  intros Hb F SPL NS PS SO V PP.
+  assert (HP : has_prefix (raw_path_of (rq_target q)) (ro_strip o) = true).
+  { apply has_prefix_spec. now exists rest. }
+  assert (SK : skipn (length (ro_strip o)) (raw_path_of (rq_target q)) = rest).
+  { rewrite SPL. apply skipn_app_len. }
+  rewrite (target_on_domain wire o q u Hb F).
+  - unfold spec_target, spec_raw_path. rewrite NS, SPL, (plain_raw_drop _ _ PS).
+    destruct PP as [->|PP]; [reflexivity|]. destruct (nonempty (ro_prepend o)); [|reflexivity].
+    now rewrite (plain_escape _ PP).
+  - unfold region_strip_encoding. destruct (unescape (raw_path_of (rq_target q))) as [path| |]; try reflexivity.
+    assert (CC : encoding_kept_cond o (raw_path_of (rq_target q)) path = true).
+    { unfold encoding_kept_cond. rewrite PS, HP, SK, SO. cbn [andb]. rewrite orb_true_r. cbn [andb].
+      destruct PP as [-> | ->]; [reflexivity | apply orb_true_r]. }
+    rewrite CC. cbn [negb]. apply andb_false_r.
+  - unfold region_invalid_byte. rewrite V. cbn [negb]. apply andb_false_r.
+Qed.
+
+Lemma slash_ok_slash rest d :
+  unescape rest = Ok d -> has_prefix rest [47] = true -> slash_ok rest = true.
+Proof.
+  intros U H. unfold slash_ok. rewrite U, H. apply has_prefix_slash in H as [r ->].
+  destruct (unescape_head47 _ _ U) as [t ->]. reflexivity.
 Qed.
 
 (* ---------- even inside the finding regions the upstream path DECODES to the right path ---------- *)
@@ -303,10 +509,11 @@ Proof.
   { eapply unescape_lt256; [|exact U]. rewrite Hraw. now apply cut_q_lt256. }
   set (tp := target_path path (ro_strip o) (ro_prepend o)) in *.
   assert (A : exists t', tp = 47 :: t') by (apply target_path_abs; eauto).
-  destruct (escaped_path_abs tp rp A) as [x E].
-  { rewrite RP. destruct (beq (escape path) raw); [now left | right; eauto]. }
+  set (tr := target_rawpath path rp (ro_strip o) (ro_prepend o)) in *.
+  destruct (escaped_path_abs tp tr A) as [x E].
+  { apply target_rawpath_abs. rewrite RP. now apply (rp_shape path raw r). }
   exists (47 :: x), path. rewrite <- Hraw. split; [exact U|]. split; [now apply K|].
-  assert (D : out_is (unescape (escaped_path tp rp)) tp = true).
+  assert (D : out_is (unescape (escaped_path tp tr)) tp = true).
   { apply escaped_path_denotes; [now apply lt256_target_path|]. destruct A as [t' ->]. discriminate. }
   rewrite E in D. destruct (unescape (47 :: x)) as [y| |]; cbn [out_is] in D; try discriminate.
   apply beq_eq in D. now subst y.
@@ -447,30 +654,79 @@ Theorem routed_one_upstream wire cf o q answer u :
   serve_http wire cf (Some o) q answer = Ok (Some u, respond (answer u)).
 Proof. intros F. unfold serve_http. now rewrite F. Qed.
 
-(* ---------- refutations (witnesses evaluated by the kernel) ---------- *)
+(* ---------- over real sockets (fabio's transport): nothing is added ---------- *)
+Theorem headers_identity_wire o q u k :
+  forward true o q = Ok u ->
+  is_hop (rq_headers q) k = false -> k <> k_user_agent ->
+  hvalues (up_headers u) k = hvalues (rq_headers q) k.
+Proof.
+  intros F H NU.
+  destruct (forward false o q) as [u0| |] eqn:F0.
+  - pose proof (headers_identity o q u0 k F0 H (fun E => False_ind _ (NU E))) as I.
+    apply forward_inv in F as (p & _ & _ & _ & _ & _ & E). apply forward_inv in F0 as (p0 & _ & _ & _ & _ & _ & E0).
+    rewrite E. rewrite E0 in I. unfold wire_headers.
+    destruct (nonempty _); [rewrite hvalues_hset by assumption | rewrite hvalues_hdel by assumption]; exact I.
+  - unfold forward in *. destruct (parse_target (rq_target q)); cbn [bind] in *; try discriminate.
+    destruct (negb _); discriminate.
+  - unfold forward in *. destruct (parse_target (rq_target q)); cbn [bind] in *; try discriminate.
+    destruct (negb _); discriminate.
+Qed.
+
+(* ---------- witnesses (evaluated by the kernel) ---------- *)
 Definition mk_req (target : string) : request :=
   {| rq_method := bs "GET"; rq_target := bs target; rq_host := bs "example.com";
      rq_headers := [(bs "Accept", bs "*/*")]; rq_body := [] |}.
 Definition mk_opts (strip prepend : string) : route_opts :=
   {| ro_strip := bs strip; ro_prepend := bs prepend; ro_host := []; ro_thost := bs "10.0.0.7:8080"; ro_tquery := [] |}.
+Definition parsed_of (target : string) : parsed :=
+  match parse_target (bs target) with Ok p => p | _ => {| p_path := []; p_rawpath := []; p_rawquery := []; p_force := false |} end.
 
-Theorem strip_keeps_encoding_refuted :
+(* before fix 402775d (director left the client's RawPath in place): the encoding was lost *)
+Theorem strip_keeps_encoding_unrepaired :
+  fwd_target_unrepaired (mk_opts "/strip" "") (parsed_of "/strip/a%2Fb") = bs "/a/b"
+  /\ fwd_target_unrepaired (mk_opts "" "/pre") (parsed_of "/a%2Fb") = bs "/pre/a/b"
+  /\ fwd_target_unrepaired (mk_opts "/strip" "") (parsed_of "/strip/%41") = bs "/A".
+Proof. repeat split; vm_compute; reflexivity. Qed.
+
+(* the code as it is: the same requests keep their encoding *)
+Theorem strip_keeps_encoding_repaired :
+  (exists u, forward false (mk_opts "/strip" "") (mk_req "/strip/a%2Fb") = Ok u /\ up_target u = bs "/a%2Fb")
+  /\ (exists u, forward false (mk_opts "" "/pre") (mk_req "/a%2Fb") = Ok u /\ up_target u = bs "/pre/a%2Fb")
+  /\ (exists u, forward false (mk_opts "/strip" "") (mk_req "/strip/%41") = Ok u /\ up_target u = bs "/%41")
+  /\ (exists u, forward false (mk_opts "/strip" "pre") (mk_req "/strip/a%2Fb?q=%2F") = Ok u
+                /\ up_target u = bs "/pre/a%2Fb?q=%2F").
+Proof. repeat split; eexists; split; vm_compute; reflexivity. Qed.
+
+(* what remains (region 1, narrowed): the strip prefix itself percent-encoded in the request ... *)
+Theorem strip_encoded_prefix_refuted :
   exists o q u, forward false o q = Ok u
     /\ region_strip_encoding o (rq_target q) = true
     /\ spec_target o (rq_target q) = bs "/a%2Fb"
     /\ up_target u = bs "/a/b".
 Proof.
-  exists (mk_opts "/strip" ""), (mk_req "/strip/a%2Fb").
+  exists (mk_opts "/strip" ""), (mk_req "/str%69p/a%2Fb").
   eexists. repeat split; vm_compute; reflexivity.
 Qed.
 
-Theorem prepend_keeps_encoding_refuted :
+(* ... a strip prefix that cuts in front of an encoded '/' ... *)
+Theorem strip_before_encoded_slash_refuted :
   exists o q u, forward false o q = Ok u
     /\ region_strip_encoding o (rq_target q) = true
-    /\ spec_target o (rq_target q) = bs "/pre/a%2Fb"
-    /\ up_target u = bs "/pre/a/b".
+    /\ spec_target o (rq_target q) = bs "/%2Fb/%41"
+    /\ up_target u = bs "/b/A".
 Proof.
-  exists (mk_opts "" "/pre"), (mk_req "/a%2Fb").
+  exists (mk_opts "/a" ""), (mk_req "/a%2Fb/%41").
+  eexists. repeat split; vm_compute; reflexivity.
+Qed.
+
+(* ... and a prepend option holding a byte that needs escaping *)
+Theorem prepend_escaped_byte_refuted :
+  exists o q u, forward false o q = Ok u
+    /\ region_strip_encoding o (rq_target q) = true
+    /\ spec_target o (rq_target q) = bs "/a%20b/x%2Fy"
+    /\ up_target u = bs "/a%20b/x/y".
+Proof.
+  exists (mk_opts "" "/a b"), (mk_req "/x%2Fy").
   eexists. repeat split; vm_compute; reflexivity.
 Qed.
 
@@ -484,16 +740,20 @@ Proof.
   eexists. repeat split; vm_compute; reflexivity.
 Qed.
 
-Theorem gzip_added_refuted :
-  exists o q u, forward true o q = Ok u
-    /\ region_gzip_added q = true
-    /\ hvalues (rq_headers q) k_accept_encoding = []
-    /\ hvalues (up_headers u) k_accept_encoding = [bs "gzip"]
-    /\ spec_forward o q u = false.
-Proof.
-  exists (mk_opts "" ""), (mk_req "/x").
-  eexists. repeat split; vm_compute; reflexivity.
-Qed.
+(* before fix 5e1efca the transport added an Accept-Encoding of its own; now it does not *)
+Theorem gzip_added_unrepaired :
+  let q := mk_req "/x" in let h := fwd_headers (rq_headers q) in
+  region_gzip_added q = true
+  /\ hvalues (rq_headers q) k_accept_encoding = []
+  /\ hvalues (wire_headers_unrepaired (rq_method q) h) k_accept_encoding = [bs "gzip"]
+  /\ hvalues (wire_headers (rq_method q) h) k_accept_encoding = [].
+Proof. repeat split; vm_compute; reflexivity. Qed.
+
+Theorem no_gzip_added_example :
+  exists u, forward true (mk_opts "" "") (mk_req "/x") = Ok u
+    /\ hvalues (up_headers u) k_accept_encoding = []
+    /\ spec_forward (mk_opts "" "") (mk_req "/x") u = true.
+Proof. eexists. repeat split; vm_compute; reflexivity. Qed.
 
 (* ---------- non-vacuity ---------- *)
 Example on_domain_nonvacuous :
@@ -508,3 +768,12 @@ Example no_opts_nonvacuous :
   valid_encoded (raw_path_of (rq_target q)) = true
   /\ exists u, forward false o q = Ok u /\ up_target u = rq_target q.
 Proof. split; [reflexivity|]. eexists. split; vm_compute; reflexivity. Qed.
+
+Example keep_raw_nonvacuous :
+  let o := mk_opts "/strip" "/pre" in let q := mk_req "/strip/a%2Fb/%41" in
+  raw_path_of (rq_target q) = ro_strip o ++ bs "/a%2Fb/%41"
+  /\ nonempty (ro_strip o) = true /\ plain (ro_strip o) = true /\ slash_ok (bs "/a%2Fb/%41") = true
+  /\ valid_encoded (raw_path_of (rq_target q)) = true /\ plain (ro_prepend o) = true
+  /\ canonical_raw (raw_path_of (rq_target q)) = false
+  /\ exists u, forward false o q = Ok u /\ up_target u = bs "/pre/a%2Fb/%41".
+Proof. repeat split. eexists. split; vm_compute; reflexivity. Qed.
